@@ -5,6 +5,7 @@ package hook
 import (
 	"fmt"
 	"reflect"
+	"runtime"
 	"sort"
 	"sync"
 )
@@ -160,4 +161,108 @@ func PoolPut(p *sync.Pool, x any) {
 	if f := SeamFn; f != nil {
 		f("pool.Put")
 	}
+}
+
+// ---- goroutines, channels and selects of the generated code itself ---------------------------------------
+
+var (
+	GoFn          func(fn func())
+	PreFn         func()
+	PostFn        func()
+	SelectOrderFn func(n int) []int
+	SelectWaitFn  func()
+)
+
+// GoRun replaces a `go f(a, b)` statement: f and its arguments have been evaluated by the caller, as the go
+// statement would have; the call itself runs as a task of the simulator.
+func GoRun(f any, args ...any) {
+	call := func() {
+		if fn, ok := f.(func()); ok && len(args) == 0 {
+			fn()
+			return
+		}
+		fv := reflect.ValueOf(f)
+		ft := fv.Type()
+		in := make([]reflect.Value, len(args))
+		for i, a := range args {
+			var pt reflect.Type
+			if ft.IsVariadic() && i >= ft.NumIn()-1 {
+				pt = ft.In(ft.NumIn() - 1).Elem()
+			} else {
+				pt = ft.In(i)
+			}
+			v := reflect.ValueOf(a)
+			switch {
+			case !v.IsValid():
+				v = reflect.Zero(pt)
+			case !v.Type().AssignableTo(pt) && v.Type().ConvertibleTo(pt):
+				v = v.Convert(pt)
+			}
+			in[i] = v
+		}
+		fv.Call(in)
+	}
+	if g := GoFn; g != nil {
+		g(call)
+		return
+	}
+	go call()
+}
+
+// Pre / Post bracket a statement that may block on another goroutine (channel operation, WaitGroup.Wait, ...).
+func Pre() {
+	if f := PreFn; f != nil {
+		f()
+	}
+}
+func Post() {
+	if f := PostFn; f != nil {
+		f()
+	}
+}
+
+// Woke: the call before may have woken a goroutine that was blocked in a real operation.
+var WokeFn func()
+
+func Woke() {
+	if f := WokeFn; f != nil {
+		f()
+	}
+}
+
+// Select is the poll order of a rewritten select statement.
+type Select struct {
+	order []int
+	pos   int
+}
+
+func NewSelect(n int, hasDefault bool) *Select {
+	s := &Select{}
+	if f := SelectOrderFn; f != nil {
+		s.order = f(n)
+	} else {
+		s.order = make([]int, n)
+		for i := range s.order {
+			s.order[i] = i
+		}
+	}
+	return s
+}
+
+func (s *Select) Next() int {
+	if s.pos < len(s.order) {
+		i := s.order[s.pos]
+		s.pos++
+		return i
+	}
+	return -1
+}
+
+func (s *Select) Wait() {
+	s.pos = 0
+	if f := SelectWaitFn; f != nil {
+		f()
+		return
+	}
+	runtime.Gosched()
 }
